@@ -262,7 +262,9 @@ def r01_5(ctx):
     if acc is None or asm is None:
         r.ob("assembly of the props expression found", None, C.mloc(fold, fold), "accumulator binding or assembly `let` not recognised: not decided")
         return r
-    uses = lambda node: any(x.get("k") == "Path" and x["res"].get("r") == "local" and x["res"].get("id") == acc["id"] for x in walk(node))
+    # the accumulator inside the per-attribute step is another binding of the same vector (closure parameter / the same `let mut`)
+    acc_ids = {acc["id"]} | {x["id"] for x in walk(fold["body"]) if x.get("k") == "PBind" and (x.get("ty") or "") == "alloc::vec::Vec<%sPropOrSpread>" % AST and x.get("name") == acc["name"]}
+    uses = lambda node: any(x.get("k") == "Path" and x["res"].get("r") == "local" and x["res"].get("id") in acc_ids for x in walk(node))
     inside = {id(x) for x in walk(asm["init"])}
     from .c02 import _leaves
     seen = {}
@@ -311,6 +313,26 @@ def r01_5(ctx):
                 key = "object literal of pending attributes #%d is de-duplicated when mergeProps is on" % nlit
                 r.ob(key, ok, C.mloc(fold, leaf), "dedupe_props(..)" + (" under merge_props" if merge_on else "") if deduped else
                      ("only reached with mergeProps off" if merge_off else "the pending attributes go into the object literal as they are: a repeated class / style / listener key is emitted twice and the later one wins"))
+    return r
+
+
+def r01_6(ctx):
+    r = Rule("R01.6", "repeated attributes are found by comparing their names exactly",
+             "a case-insensitive comparison merges `value` with `Value` and `onClick` with `onclick`, which are different props")
+    dd = C.role_or_fail(ctx, r, "dedupe")
+    if not dd:
+        return r
+    r.saw(dd["path"])
+    n = 0
+    for x in walk(dd["body"]):
+        if x.get("k") == "MethodCall" and x["method"] in ("eq_ignore_ascii_case", "to_lowercase", "to_ascii_lowercase", "to_uppercase", "to_ascii_uppercase"):
+            sides = [x["recv"]] + list(x["args"])
+            consts = [const_str(strip_transparent(s_)) for s_ in sides]
+            n += 1
+            ok = any(c is not None for c in consts)
+            r.ob("case-insensitive test #%d in the de-duplication compares with a constant" % n, ok, C.mloc(dd, x),
+                 "against %s" % [c for c in consts if c][:1] if ok else "`%s` compares two attribute names without regard to case" % expr_str(x)[:70])
+    r.ob("name comparisons in the de-duplication examined", True, "-", "%d case-insensitive comparison(s)" % n)
     return r
 
 
@@ -368,7 +390,7 @@ def r01_4(ctx):
 def rules(ctx):
     from ..engine import only
     from . import c02
-    return [r01_1, r01_2, r01_3, r01_4, r01_5, c14.r14_6, c02.r02_1, c02.r02_5,
+    return [r01_1, r01_2, r01_3, r01_4, r01_5, r01_6, c14.r14_6, c02.r02_1, c02.r02_5,
             only(c07.r07_6, lambda k: "transform_attrs" in k or k.startswith("JSX attribute literal"), "string attribute values"),
             c11.r11_4]
 
